@@ -257,6 +257,11 @@ def p1_worker(part, job, seed, thorough):
             p1_case(part, row, case)
             if mode == "all_sizes":
                 break
+    # deviation: molecules that are single atoms (a lone argon next to a water; an asymmetric unit of one atom)
+    for zk in ("2ar_h2o", "1ar"):
+        case = {"number": row["number"], "choice": row["choice"], "zkind": zk, "centre": [0.137, 0.289, 0.611], "orient": 1, "seed": seed,
+                "sizes": [[1, 1, 1], [2, 1, 1]]}
+        p1_case(part, row, case)
     # deviation: partially occupied sites (the descriptions must still agree on the density)
     for zk, o in (("2diff", 0.5), ("1", 0.25)):
         case = {"number": row["number"], "choice": row["choice"], "zkind": zk, "centre": [0.137, 0.289, 0.611], "orient": 1, "seed": seed,
